@@ -1530,11 +1530,17 @@ def run_batch(chk, cases, agg):
         for k, st in enumerate(isteps[i]):
             if "g" in st.get("x", ""):
                 op = st.get("o", "final").split(",")[0]
+                sig = "C13:swap-copied-stream:" + op
+                of = st.get("o", "").split(",")
+                if op == "ri" and len(of) >= 5 and of[2] == of[4]:
+                    # replaceObject(og, <a stream with the same object number>): the recorded findings C13-F5 (a stream of the OTHER
+                    # document) and C13-F4 (the stream itself) seen through this oracle - the copied stream's provider is lost
+                    sig = "C13:replace-indirect:" + ("foreign-stream-same-number" if of[1] != of[3] else "self-stream")
                 chk.violation({"kind": "property-fails-on-implementation", "part": "stream-data", "case": describe(c, isteps[i]), "step": k, "operation": st.get("o"),
                                "why": "after this call the data of a stream that was copied from the other document can no longer be produced "
                                       "(getRawStreamData throws 'error getting raw stream data'); writing the document fails",
-                               "replay": replay_line(c, isteps[i])}, signature="C13:swap-copied-stream:" + op)
-                stats["known_sig"]["C13:swap-copied-stream:" + op] = stats["known_sig"].get("C13:swap-copied-stream:" + op, 0) + 1
+                               "replay": replay_line(c, isteps[i])}, signature=sig)
+                stats["known_sig"][sig] = stats["known_sig"].get(sig, 0) + 1
                 stats["spec_viol"] += 1
                 break
 
